@@ -233,6 +233,27 @@ impl<T> VecDeque<T> {
             self.items[self.len - 1].as_ref()
         }
     }
+    pub fn front_mut(&mut self) -> Option<&mut T> {
+        if self.len == 0 {
+            None
+        } else {
+            self.items[0].as_mut()
+        }
+    }
+    pub fn back_mut(&mut self) -> Option<&mut T> {
+        if self.len == 0 {
+            None
+        } else {
+            self.items[self.len - 1].as_mut()
+        }
+    }
+    pub fn get_mut(&mut self, i: usize) -> Option<&mut T> {
+        if i < self.len {
+            self.items[i].as_mut()
+        } else {
+            None
+        }
+    }
     pub fn clear(&mut self) {
         let mut i = 0;
         while i < QCAP {
